@@ -461,6 +461,48 @@ fn string_case(cfg: &RunCfg, rep: &mut Report, world: &World, i: u64) {
 
 fn script_amplifier(rng: &mut Rng) -> Vec<u8> {
     let n = *rng.pick(&[100usize, 201, 402, 1000, 5000, 10_001]);
+    if rng.chance(1, 3) {
+        // attacker-chosen counts in front of NUMEQUAL / CHECKMULTISIG / EQUAL: five bytes of script
+        // must not buy megabytes of memory
+        let big = *rng.pick(&[21i64, 999, 1000, 65_535, 8_388_607, 0x7fff_ffff, 0x7fff_ffff_ff]);
+        let num = crate::refvm::script::num_encode(big);
+        let mut s = vec![];
+        let key = [2u8; 32];
+        match rng.below(5) {
+            0 => {
+                crate::refvm::script::push_minimal(&mut s, &num);
+                s.push(0x9c);
+            }
+            1 => {
+                crate::refvm::script::push_minimal(&mut s, &key);
+                s.push(0xac);
+                crate::refvm::script::push_minimal(&mut s, &key);
+                s.push(0xba);
+                crate::refvm::script::push_minimal(&mut s, &num);
+                s.push(0x9c);
+            }
+            2 => {
+                s.push(0x51);
+                crate::refvm::script::push_minimal(&mut s, &[3u8; 33]);
+                crate::refvm::script::push_minimal(&mut s, &num);
+                s.push(0xae);
+            }
+            3 => {
+                crate::refvm::script::push_minimal(&mut s, &num);
+                crate::refvm::script::push_minimal(&mut s, &[3u8; 33]);
+                s.push(0x51);
+                s.push(0xae);
+            }
+            _ => {
+                // thresh-like tail: <pk> CHECKSIG <huge k> EQUAL
+                crate::refvm::script::push_minimal(&mut s, &[3u8; 33]);
+                s.push(0xac);
+                crate::refvm::script::push_minimal(&mut s, &num);
+                s.push(0x87);
+            }
+        }
+        return s;
+    }
     match rng.below(8) {
         0 => [vec![0x63u8; n], vec![0x68u8; n]].concat(),              // IF^n ENDIF^n
         1 => [vec![0x6bu8; n], vec![0x51], vec![0x6cu8; n]].concat(), // TOALTSTACK^n 1 FROMALTSTACK^n
@@ -702,11 +744,12 @@ fn psbt_case(cfg: &RunCfg, rep: &mut Report, world: &World, i: u64) {
     }
     // hostile edits of the structurally valid PSBT
     let mut notes = vec![];
+    let mut vout_edits: Vec<(usize, u32)> = vec![];
     let n_edits = if std::env::var("C11_NOEDIT").is_ok() { 0 } else { 1 + rng.below(4) };
     for _ in 0..n_edits {
         let k = rng.below(n);
         let donor = rng.below(n);
-        let what = rng.below(22);
+        let what = rng.below(25);
         notes.push(format!("{}@{}", what, k));
         let other = psbt.inputs[donor].clone();
         let inp = &mut psbt.inputs[k];
@@ -786,6 +829,20 @@ fn psbt_case(cfg: &RunCfg, rep: &mut Report, world: &World, i: u64) {
                 inp.bip32_derivation.clear();
                 inp.tap_key_origins.clear();
             }
+            22 | 23 => {
+                // both utxo forms present (allowed by BIP-174), optionally pointing past the outputs
+                inp.witness_utxo = Some(s.prevouts[k].clone());
+                inp.non_witness_utxo = s.prev_txs[k].clone();
+                if what == 23 {
+                    let n_out = s.prev_txs[k].as_ref().map(|t| t.output.len()).unwrap_or(1) as u32;
+                    vout_edits.push((k, n_out + rng.below(3) as u32));
+                }
+            }
+            24 => {
+                // the spent vout is out of range for the (matching) previous transaction
+                let n_out = s.prev_txs[k].as_ref().map(|t| t.output.len()).unwrap_or(1) as u32;
+                vout_edits.push((k, n_out + rng.below(3) as u32));
+            }
             20 => {
                 if let Some(u) = inp.witness_utxo.as_mut() {
                     u.script_pubkey = ScriptBuf::from_bytes(hostile_spk(&mut rng, u.script_pubkey.as_bytes()));
@@ -797,6 +854,11 @@ fn psbt_case(cfg: &RunCfg, rep: &mut Report, world: &World, i: u64) {
                     inp.partial_sigs.insert(*k2, *v2);
                 }
             }
+        }
+    }
+    for (k, v) in vout_edits {
+        if let Some(i) = psbt.unsigned_tx.input.get_mut(k) {
+            i.previous_output.vout = v;
         }
     }
     // more / fewer PSBT inputs than the transaction has
